@@ -99,7 +99,7 @@ theorem At.head {is : List Instruction} {lo : Nat} {x : ScriptInstr} {l : List S
   simp [instrsFrom_cons]
 
 theorem At.program (b : Block) : At (program b) 0 b.flatten :=
-  ⟨[], [], rfl, by simp [instrsFrom, program]⟩
+  ⟨[], [], rfl, by simp [instrsFrom]; rfl⟩
 
 theorem length_program (b : Block) : (program b).length = b.flatten.length :=
   length_instrsFrom 0 b.flatten
@@ -109,7 +109,8 @@ theorem length_program (b : Block) : (program b).length = b.flatten.length :=
 theorem litOK_of_isLiteral {w : Str} (h : isLiteral w = true) : LitOK w := by
   intro c hc
   have := (List.all_eq_true.mp h) c hc
-  simpa using this
+  simp at this
+  exact ⟨this.1.1, this.1.2, this.2⟩
 
 theorem bind_cons (vars : Vars) (a : Str) (rest : List Str) :
     bind vars (some (a :: rest)) = bind vars (some [a]) ++ bind vars (some rest) := by
@@ -141,20 +142,24 @@ theorem bind_mkArgs (vars : Vars) (args : List Str) :
 
 /-! ### command resolution does not depend on the state in the fragment -/
 
+theorem ite_or_aux {α} (A : Prop) [Decidable A] (a : α) (r r' : Option α) (x : Option α)
+    (h : r = r'.or x) : (if A then some a else r) = (if A then some a else r').or x := by
+  split <;> simp [h]
+
+theorem resolveCmd_eq (s : Sdk) (c : Str) :
+    resolveCmd s c =
+      (resolveCmd {} c).or (if (s.fns.get c).isSome then some (.call c) else none) := by
+  unfold resolveCmd
+  repeat' apply ite_or_aux
+  simp [KV.get]
+
 theorem resolveCmd_of_empty {c : Str} {x : Cmd} (s : Sdk) (h : resolveCmd {} c = some x) :
     resolveCmd s c = some x := by
-  unfold resolveCmd at h ⊢
-  repeat' split at h
-  all_goals first
-    | (simp_all; done)
-    | (exfalso; simp [KV.get] at h; done)
-    | skip
-  all_goals simp_all
+  rw [resolveCmd_eq, h]; rfl
 
 theorem resolveCmd_none_of_empty {c : Str} (s : Sdk) (hs : s.fns = [])
     (h : (resolveCmd {} c).isNone = true) : resolveCmd s c = none := by
-  unfold resolveCmd at h ⊢
-  rw [hs]
-  exact Option.isNone_iff_eq_none.mp h
+  rw [resolveCmd_eq, Option.isNone_iff_eq_none.mp h, hs]
+  simp [KV.get]
 
 end Duck
